@@ -45,6 +45,7 @@ theorem step_stdOutput (s : St) (e : Ev) (hc : s.crashed = false) :
   | testEnded ms c =>
     simp only [step, hc, Bool.false_eq_true, if_false, onTestEnded, evsPrinted, List.append_nil]
     cases hn : s.nodesRev <;> rfl
+  | testRun i n => simp [step, hc, evsPrinted]
   | testsStarted => simp [step, hc, evsPrinted]
   | groupStarted t => simp [step, hc, evsPrinted]
   | testStarted t => simp [step, hc, evsPrinted, onTestStarted]
